@@ -858,3 +858,212 @@ class StepPhase(_StepBase):
              s['regvalue'].arr == g['RG'](g['NR'])),
             ('S6 the trace receives exactly the final value map', g.get('traced') == val),
         ]
+
+
+# ------------------------------------------------------------------------------ _initialize
+def _init_ghost(sim):
+    return sim.fields['_ghost']
+
+
+def _exp_reg(g, o):
+    """documented priority: register_value_map > reset_value > default_value"""
+    import z3
+    return z3.If(z3.Select(g['rvm_dom'], o), z3.Select(g['rvm'], o),
+                 z3.If(g['HASRESET'](o), g['RESET'](o), g['default']))
+
+
+def _init_common(sim, g, o, regs_done, consts_done, others_done):
+    """value / regvalue after the first `regs_done` registers, `consts_done` constants and the
+    first `others_done` wires of the final sweep have been handled (wires are 0..NW-1)."""
+    import z3
+    val, reg = sim.fields['value'], sim.fields['regvalue']
+    inw = z3.And(0 <= o, o < g['NW'])
+    isreg = z3.And(inw, g['KIND'](o) == 4)
+    isconst = z3.And(inw, g['KIND'](o) == 3)
+    rdone = z3.And(isreg, g['RIDX'](o) < regs_done)
+    cdone = z3.And(isconst, g['CIDX'](o) < consts_done)
+    odone = z3.And(inw, o < others_done)
+    return [
+        ('value is defined exactly on the handled wires',
+         z3.ForAll([o], z3.Select(val.dom, o) == z3.Or(rdone, cdone, odone))),
+        ('handled registers hold map > reset > default in value and regvalue',
+         z3.ForAll([o], z3.Implies(rdone, z3.And(z3.Select(val.arr, o) == _exp_reg(g, o),
+                                                 z3.Select(reg.arr, o) == _exp_reg(g, o))))),
+        ('regvalue is defined exactly on the handled registers',
+         z3.ForAll([o], z3.Select(reg.dom, o) == rdone)),
+        ('handled constants hold their value',
+         z3.ForAll([o], z3.Implies(cdone, z3.Select(val.arr, o) == g['CVAL'](o)))),
+        ('other handled wires hold the default',
+         z3.ForAll([o], z3.Implies(z3.And(odone, z3.Not(isreg), z3.Not(isconst)),
+                                   z3.Select(val.arr, o) == g['default']))),
+    ]
+
+
+def _init_regs_inv(I, fr, k):
+    import z3
+    sim = fr.lookup('self')
+    return _init_common(sim, _init_ghost(sim), z3.Int('o!inv'), k, z3.IntVal(0), z3.IntVal(0))
+
+
+def _init_consts_inv(I, fr, k):
+    import z3
+    sim = fr.lookup('self')
+    g = _init_ghost(sim)
+    return _init_common(sim, g, z3.Int('o!inv'), g['NR'], k, z3.IntVal(0))
+
+
+def _init_all_inv(I, fr, k):
+    import z3
+    sim = fr.lookup('self')
+    g = _init_ghost(sim)
+    return _init_common(sim, g, z3.Int('o!inv'), g['NR'], g['NC'], k)
+
+
+@register
+class Initialize(Contract):
+    """Simulation._initialize over a block with symbolically many wires (C01 initial state):
+    every Register starts at register_value_map[r] if present, else its reset_value if it has one,
+    else default_value (in both `value` and `regvalue`); every Const holds its val; every other
+    wire holds default_value; the tracer receives (default_value, regvalue, memvalue).
+    The block of this contract has no memories (memory initialisation: bounded families)."""
+    module, qualname, props = 'pyrtl.simulation', 'Simulation._initialize', ('C01',)
+    invariants = {
+        ('Simulation._initialize', 0): ForInv(_init_regs_inv, heap=lambda I, fr: [
+            fr.lookup('self').fields['value'], fr.lookup('self').fields['regvalue']]),
+        ('Simulation._initialize', 1): ForInv(_init_consts_inv, heap=lambda I, fr: [
+            fr.lookup('self').fields['value']]),
+        ('Simulation._initialize', 5): ForInv(_init_all_inv, heap=lambda I, fr: [
+            fr.lookup('self').fields['value']]),
+    }
+
+    @property
+    def hooks(self):
+        from pyvc.engine import Builtin, Sym, SMap
+
+        def getattr_hook(I_, o, name):
+            if name == 'reset_value' and '_oid_reset' in o.fields:
+                g = o.fields['_oid_reset']
+                if I_.st.branch(g['HASRESET'](o.oid)):
+                    return Sym(g['RESET'](o.oid))
+                return None
+            return NotImplemented
+
+        def deepcopy(I_, a, k):
+            x = a[0]
+            return x.copy() if isinstance(x, SMap) else x
+        return {'getattr': getattr_hook, 'import:copy.deepcopy': Builtin('copy.deepcopy', deepcopy),
+                'iter': lambda I_, o: iter(())}
+
+    def setup(self, I, case):
+        import z3
+        from pyvc.engine import SSeq, Sym, SObj, Builtin, Unsupported
+        st = I.st
+        Int, Bool = z3.IntSort(), z3.BoolSort()
+        n = next(st.n)
+        g = dict(KIND=z3.Function('KIND!%d' % n, Int, Int), RIDX=z3.Function('RIDX!%d' % n, Int, Int),
+                 CIDX=z3.Function('CIDX!%d' % n, Int, Int), REGSEQ=z3.Function('REGSEQ!%d' % n, Int, Int),
+                 CONSTSEQ=z3.Function('CONSTSEQ!%d' % n, Int, Int),
+                 HASRESET=z3.Function('HASRESET!%d' % n, Int, Bool),
+                 RESET=z3.Function('RESET!%d' % n, Int, Int), CVAL=z3.Function('CVAL!%d' % n, Int, Int),
+                 NW=z3.Int('NW!%d' % n), NR=z3.Int('NR!%d' % n), NC=z3.Int('NC!%d' % n))
+        NW, NR, NC = g['NW'], g['NR'], g['NC']
+        st.assume(z3.And(NW >= 0, NR >= 0, NC >= 0))
+        i, j = z3.Ints('i!wf j!wf')
+        KIND, RIDX, CIDX, REGSEQ, CONSTSEQ = g['KIND'], g['RIDX'], g['CIDX'], g['REGSEQ'], g['CONSTSEQ']
+        # wirevector_subset(cls) enumerates exactly the wires of that class, each once
+        for (K, IDX, SEQ, N_) in ((4, RIDX, REGSEQ, NR), (3, CIDX, CONSTSEQ, NC)):
+            st.assume(z3.ForAll([i], z3.Implies(z3.And(0 <= i, i < NW, KIND(i) == K),
+                                                z3.And(0 <= IDX(i), IDX(i) < N_, SEQ(IDX(i)) == i))))
+            st.assume(z3.ForAll([j], z3.Implies(z3.And(0 <= j, j < N_),
+                                                z3.And(0 <= SEQ(j), SEQ(j) < NW, KIND(SEQ(j)) == K,
+                                                       IDX(SEQ(j)) == j))))
+        sim = M.simulation(I)
+        sim.fields['value'] = M.partial_map(I, 'value')
+        sim.fields['regvalue'] = M.partial_map(I, 'regvalue')
+        st.assume(sim.fields['value'].dom == z3.K(Int, False))       # __init__: self.value = {}
+        st.assume(sim.fields['regvalue'].dom == z3.K(Int, False))
+        st.assume(sim.fields['memvalue'].dom == z3.K(Int, False))
+        g['default'] = sim.fields['default_value'].t
+        rvm = M.partial_map(I, 'register_value_map')
+        g['rvm'], g['rvm_dom'] = rvm.arr, rvm.dom
+        sim.fields['_ghost'] = g
+
+        def reg(jx):
+            return SObj('Register', {'_oid_reset': g}, oid=REGSEQ(jx))
+
+        def const(jx):
+            o = CONSTSEQ(jx)
+            return SObj('Const', dict(val=Sym(g['CVAL'](o))), oid=o)
+
+        def anywire(ix):
+            return SObj('WireVector', {}, oid=ix)
+        blk = SObj('Block', {})
+
+        def wirevector_subset(I_, a, k):
+            names = [getattr(c, 'name', None) for c in (a[0] if isinstance(a[0], tuple) else (a[0],))]
+            if names == ['Register']:
+                return SSeq(NR, reg, 'set')
+            if names == ['Const']:
+                return SSeq(NC, const, 'set')
+            raise Unsupported('wirevector_subset(%r) in the _initialize model' % names)
+        blk.fields['wirevector_subset'] = Builtin('Block.wirevector_subset', wirevector_subset)
+        blk.fields['wirevector_set'] = SSeq(NW, anywire, 'set')
+        blk.fields['logic_subset'] = Builtin('Block.logic_subset(no memories, no nets)', lambda I_, a, k: ())
+        sim.fields['block'] = blk
+        tracer = SObj('SimulationTrace', {})
+
+        def set_initial(I_, args, k):
+            g['traced'] = (args[0], args[1], args[2])
+        tracer.fields['_set_initial_values'] = Builtin('SimulationTrace._set_initial_values(ghost)', set_initial)
+        sim.fields['tracer'] = tracer
+        return NS(self=sim, args=[rvm, {}], g=g)
+
+    def post(self, ns):
+        import z3
+        from pyvc.engine import term
+        sim, g = ns.self, ns.g
+        val, reg = sim.fields['value'], sim.fields['regvalue']
+        o = z3.Int('o!post')
+        inw = z3.And(0 <= o, o < g['NW'])
+        isreg = z3.And(inw, g['KIND'](o) == 4)
+        isconst = z3.And(inw, g['KIND'](o) == 3)
+        tr = g.get('traced')
+        return [
+            ('every wire of the block has a value', z3.ForAll([o], z3.Implies(inw, z3.Select(val.dom, o)))),
+            ('registers: register_value_map > reset_value > default_value',
+             z3.ForAll([o], z3.Implies(isreg, z3.And(z3.Select(val.arr, o) == _exp_reg(g, o),
+                                                     z3.Select(reg.arr, o) == _exp_reg(g, o),
+                                                     z3.Select(reg.dom, o))))),
+            ('regvalue holds registers only', z3.ForAll([o], z3.Implies(z3.Select(reg.dom, o), isreg))),
+            ('constants hold their val', z3.ForAll([o], z3.Implies(isconst, z3.Select(val.arr, o) == g['CVAL'](o)))),
+            ('all other wires hold default_value',
+             z3.ForAll([o], z3.Implies(z3.And(inw, z3.Not(isreg), z3.Not(isconst)),
+                                       z3.Select(val.arr, o) == g['default']))),
+            ('the trace receives default_value and a copy of regvalue',
+             z3.BoolVal(False) if tr is None else
+             z3.And(term(tr[0]) == g['default'], tr[1].arr == reg.arr, tr[1].dom == reg.dom)),
+        ]
+
+    def concrete(self, tier='quick'):
+        def mk(mapped, reset, default):
+            def thunk():
+                import pyrtl
+                pyrtl.reset_working_block()
+                r = pyrtl.Register(3, 'r', reset_value=reset)
+                i = pyrtl.Input(3, 'i')
+                w = pyrtl.WireVector(3, 'w')
+                w <<= i + 1
+                r.next <<= w
+                c = [x for x in pyrtl.working_block().wirevector_subset(pyrtl.Const)][0]
+                rvm = {} if mapped is None else {r: mapped}
+                sim = pyrtl.Simulation(register_value_map=rvm, default_value=default)
+                exp = mapped if mapped is not None else (reset if reset is not None else default)
+                obs = (sim.value[r], sim.regvalue[r], sim.value[c], sim.value[w], sim.value[i],
+                       sim.tracer.init_regvalue.get(r), sim.tracer.default_value)
+                want = (exp, exp, c.val, default, default, exp, default)
+                return obs == want, obs, want
+            return thunk
+        for mapped in (None, 0, 5):
+            for reset in (None, 0, 2):
+                for default in (0, 3):
+                    yield ('map=%r,reset=%r,default=%r' % (mapped, reset, default), mk(mapped, reset, default))
